@@ -86,6 +86,19 @@ theorem Mealy.run_length (m : Mealy α β S) (s : S) (a : List α) : (m.run s a)
   | nil => simp [Mealy.run]
   | cons x a ih => simp [Mealy.run, ih]
 
+/-- The kernel assumption on `scipy.signal.lfilter` with carried `zi`: on **non-empty** input it is the
+per-sample state machine `m` (output and final state); on empty input it returns no samples and an
+**arbitrary** final state (SciPy 1.18 returns uninitialised memory there). -/
+def LfilterIs (lf : S → List α → List β × S) (m : Mealy α β S) : Prop :=
+  (∀ z x, x ≠ [] → lf z x = m.run z x) ∧ ∀ z, (lf z []).1 = []
+
+/-- with the guard of the stages (`if y.shape[-1] > 0: zo = zf`) the garbage state is never used -/
+theorem lfGuard_eq {lf : S → List α → List β × S} {m : Mealy α β S} (h : LfilterIs lf m) (z : S) (y : List α) :
+    lfGuard lf z y = m.run z y := by
+  cases y with
+  | nil => simp [lfGuard, h.2 z, Mealy.run]
+  | cons a l => simp [lfGuard, h.1 z (a :: l) (by simp)]
+
 /-! ### np.diff -/
 
 /-- last element of `a :: l` -/
